@@ -2051,6 +2051,13 @@ impl StorageEngine {
             // Same shard - simple case
             let mut shard_guard = old_shard.write().unwrap();
             if let Some(stored_value) = shard_guard.data.remove(old_key) {
+                // The value takes its deadline along: the sweeper has to find it under the
+                // new name (and must forget whatever deadline the overwritten key had)
+                shard_guard.expiring_keys.remove(old_key);
+                match stored_value.metadata.expires_at {
+                    Some(expires_at) => { shard_guard.expiring_keys.insert(new_key.clone(), expires_at); }
+                    None => { shard_guard.expiring_keys.remove(&new_key); }
+                }
                 shard_guard.data.insert(new_key.clone(), stored_value);
                 shard_guard.mark_modified(old_key);
                 shard_guard.mark_modified(&new_key);
@@ -2077,6 +2084,12 @@ impl StorageEngine {
             
             // Move the value between shards
             if let Some(stored_value) = old_guard.data.remove(old_key) {
+                // The value takes its deadline along (see the same-shard case)
+                old_guard.expiring_keys.remove(old_key);
+                match stored_value.metadata.expires_at {
+                    Some(expires_at) => { new_guard.expiring_keys.insert(new_key.clone(), expires_at); }
+                    None => { new_guard.expiring_keys.remove(&new_key); }
+                }
                 new_guard.data.insert(new_key.clone(), stored_value);
                 old_guard.mark_modified(old_key);
                 new_guard.mark_modified(&new_key);
